@@ -123,6 +123,72 @@ pub fn optimize_sources(
   sources
 }
 
+/// Verification hook (off by default): runs one named pass in isolation, so that behaviour
+/// preservation can be checked pass by pass and a failure can name the guilty pass.
+#[cfg(samlang_verif)]
+pub mod verif {
+  pub const FUNCTION_PASSES: &[&str] = &[
+    "conditional_constant_propagation",
+    "scalar_replacement",
+    "loop_optimizations",
+    "common_subexpression_elimination",
+    "local_value_numbering",
+    "dead_code_elimination",
+  ];
+
+  /// Applies the named per-function pass once to one function. Returns false for an unknown name.
+  pub fn run_function_pass(
+    name: &str,
+    function: &mut samlang_ast::mir::Function,
+    counter: &samlang_heap::TempPStrCounter,
+  ) -> bool {
+    match name {
+      "conditional_constant_propagation" => {
+        super::conditional_constant_propagation::optimize_function(function)
+      }
+      "scalar_replacement" => super::scalar_replacement::optimize_function(function),
+      "loop_optimizations" => super::loop_optimizations::optimize_function(function, counter),
+      "common_subexpression_elimination" => {
+        super::common_subexpression_elimination::optimize_function(function, counter)
+      }
+      "local_value_numbering" => super::local_value_numbering::optimize_function(function),
+      "dead_code_elimination" => super::dead_code_elimination::optimize_function(function),
+      _ => return false,
+    }
+    true
+  }
+
+  /// Applies the named per-function pass once to every function of the sources.
+  pub fn run_function_pass_on_sources(
+    name: &str,
+    heap: &mut samlang_heap::Heap,
+    sources: &mut samlang_ast::mir::Sources,
+  ) -> bool {
+    let counter = heap.create_temp_counter();
+    let mut known = true;
+    for function in sources.functions.iter_mut() {
+      known &= run_function_pass(name, function, &counter);
+    }
+    heap.sync_temp_counter(&counter);
+    known
+  }
+
+  /// The whole-program inlining pass followed by unused name elimination, once.
+  pub fn run_inlining(
+    heap: &mut samlang_heap::Heap,
+    mut sources: samlang_ast::mir::Sources,
+  ) -> samlang_ast::mir::Sources {
+    sources.functions = super::inlining::optimize_functions(sources.functions, heap);
+    super::unused_name_elimination::optimize_sources(&mut sources);
+    sources
+  }
+
+  /// Unused name elimination alone.
+  pub fn run_unused_name_elimination(sources: &mut samlang_ast::mir::Sources) {
+    super::unused_name_elimination::optimize_sources(sources);
+  }
+}
+
 #[cfg(test)]
 mod tests {
   use pretty_assertions::assert_eq;
